@@ -4,7 +4,7 @@ Obs: union of a.get_r(mem_read=True) / a.get_w() over get_instr_expr(), projecte
 C->S: T_C08.tla checks X86RW.Reads/Writes (validated against X86Sem!Step by the probing self-check X86RWSelf.tla)
 to be subsets of the observed sets; undefined-by-SDM writes are a separate class."""
 import os, sys, json, random, hashlib, collections, binascii
-from . import core, irlib, c04
+from . import core, irlib, c04, expr_json as EJ
 
 GPR = ['eax', 'ecx', 'edx', 'ebx', 'esp', 'ebp', 'esi', 'edi']
 FLAGMAP = {'nf': 'sf'}
@@ -67,29 +67,58 @@ def _sets(job):
             out['st'] = 'none'
             return out
         R, W = set(), set()
+        rcells, wcells = {}, {}
+
+        def note(tab, m):
+            try:
+                t = {'a': EJ.to_json(m.arg, X), 'w': int(m.size)}
+            except Exception:
+                t = {'a': {'k': 'other', 'w': 0}, 'w': int(m.size)}
+            tab[json.dumps(t, sort_keys=True)] = t
         for a in affs:
             for x in a.get_r(mem_read=True):
                 if isinstance(x, X.ExprId):
                     R.add(name_of(str(x.name)))
                 elif isinstance(x, X.ExprMem):
                     R.add(cell(x))
+                    note(rcells, x)
             for x in a.get_w():
                 if isinstance(x, X.ExprId):
                     W.add(name_of(str(x.name)))
                 elif isinstance(x, X.ExprMem):
                     W.add(cell(x))
+                    note(wcells, x)
                     # a written memory operand: its address registers are visible in the reported cell
                     for y in x.arg.get_r(True):
                         if isinstance(y, X.ExprId):
                             R.add(name_of(str(y.name)))
                         elif isinstance(y, X.ExprMem):
                             R.add(cell(y))
-        out.update(st='ok', r=sorted(x for x in R if x), w=sorted(x for x in W if x), n=len(affs))
+                            note(rcells, y)
+        out.update(st='ok', r=sorted(x for x in R if x), w=sorted(x for x in W if x), n=len(affs),
+                   rcells=[rcells[k] for k in sorted(rcells)], wcells=[wcells[k] for k in sorted(wcells)])
         return out
-    st, r = irlib.guarded(work, None, 10)
+
+    def twice(_):
+        # the instruction is decoded and lifted twice in this process; a second observation that differs from the first
+        # is reported as an observation of its own
+        a = work(None)
+        b2 = work(None)
+        if b2 != a:
+            a['second'] = b2
+        return a
+    st, r = irlib.guarded(twice, None, 10)
     if st == 'ok':
         return r
     return {'st': 'exc', 'exc': r if st == 'exc' else {'exc': 'Timeout', 'func': '', 'line': ''}}
+
+
+NPROBE = 3
+MEM_MN = {'push', 'pop', 'pushad', 'popad', 'call', 'ret', 'leave', 'enter', 'xlat', 'movs', 'cmps', 'scas', 'lods', 'stos'}
+
+
+def touches_memory(inst):
+    return inst['mn'] in MEM_MN or any(o['k'] == 'mem' for o in inst['ops'])
 
 
 DUMMY_I = {'mn': 'none', 'w': 0, 'sw': 0, 'ops': [], 'cc': '', 'len': 0, 'rel': [0, 0, 0, 0], 'cls': '', 'q': True, 'txt': ''}
@@ -113,11 +142,14 @@ def build_records(core_insts, ext_rows):
         if o['l'] != len(b):
             excl['decoded length differs from GNU as (decoder property C01)'] += 1
             continue
-        rec = {'id': n, 'kind': 'core' if is_core else 'ext', 'i': dict(core_insts[k], len=len(b)) if is_core else DUMMY_I,
-               'x': 0 if is_core else ext_rows[k - len(core_insts)][0], 'txt': t, 'bytes': binascii.hexlify(b).decode(),
-               'robs': o['r'], 'wobs': o['w'], 'impl_str': o['str']}
-        n += 1
-        recs.append(rec)
+        for obs in [o] + ([o['second']] if o.get('second', {}).get('st') == 'ok' else []):
+            rec = {'id': n, 'kind': 'core' if is_core else 'ext', 'i': dict(core_insts[k], len=len(b)) if is_core else DUMMY_I,
+                   'x': 0 if is_core else ext_rows[k - len(core_insts)][0], 'txt': t, 'bytes': binascii.hexlify(b).decode(),
+                   'robs': obs['r'], 'wobs': obs['w'], 'impl_str': obs['str'], 'rcells': obs['rcells'], 'wcells': obs['wcells'],
+                   'sd': (k * 7 + 1) % 30000, 'eip': core.limbs(0x1000, 32), 'second_lifting': obs is not o,
+                   'ns': NPROBE if is_core and touches_memory(core_insts[k]) else 0}
+            n += 1
+            recs.append(rec)
     return recs, excl
 
 
@@ -155,6 +187,9 @@ def report(chk, recs, verdicts):
             if f['clause'] == 'skip.degenerate':
                 skipped += 1
                 continue
+            if f['clause'] == 'skip.illtyped_address':       # C11's subject; the name-level clauses are still judged
+                chk.cov['address_clauses_skipped_illtyped'] = chk.cov.get('address_clauses_skipped_illtyped', 0) + 1
+                continue
             key = {'clause': f['clause'], 'group': group_of(rec), 'mn': mn_of(rec), 'item': f['item']}
             chk.violation(key, {'text': rec['txt'], 'bytes': rec['bytes'], 'miasmx_str': rec['impl_str'], 'kind': rec['kind'],
                                 'instance': rec['i'] if rec['kind'] == 'core' else None, 'ext_row': rec['x'],
@@ -181,6 +216,9 @@ def run(tier, chk):
     chk.cov['core_instances'] = sum(1 for r in recs if r['kind'] == 'core')
     chk.cov['ext_instances'] = sum(1 for r in recs if r['kind'] == 'ext')
     chk.cov['degenerate_instances_skipped'] = skipped
+    chk.cov['instances_with_concrete_address_clauses'] = sum(1 for r in recs if r.get('ns'))
+    chk.cov['probe_states_per_instance'] = NPROBE
+    chk.cov['second_liftings_that_differed'] = sum(1 for r in recs if r.get('second_lifting'))
     chk.cov['excluded'] = {k: v for k, v in excl.items()}
     chk.cov['distinct_nontrivial'] = len(set((mn_of(r), r['i']['w'], r['i']['cls'], r['i']['cc']) for r in recs))
     chk.cov['rule'] = ('instances = X86Space.tla (integer core) + rows of X86RW!Ext (BCD, cpuid, rep forms, MMX/SSE, x87); non-trivial = distinct '
@@ -214,18 +252,32 @@ def negative_control(chk):
     cpuid = [x for x, t in ext if t == 'cpuid'][0]
 
     def rec(i, kind, robs, wobs, x=0):
-        return {'id': i, 'kind': kind, 'i': add if kind == 'core' else DUMMY_I, 'x': x, 'robs': robs, 'wobs': wobs}
+        return {'id': i, 'kind': kind, 'i': add if kind == 'core' else DUMMY_I, 'x': x, 'robs': robs, 'wobs': wobs,
+                'rcells': [], 'wcells': [], 'ns': 0, 'sd': 1, 'eip': core.limbs(0x1000, 32)}
+    # pop dword ptr [esp+8]: reads the stack top, writes at (esp + 4) + 8
+    m3 = {'k': 'mem', 'c': '', 'n': 0, 'v': [], 'b': 4, 'i': -1, 'sc': 1, 'd': [8, 0, 0, 0]}
+    popm = {'mn': 'pop', 'w': 32, 'sw': 0, 'ops': [m3], 'cc': '', 'len': 4, 'rel': [0, 0, 0, 0], 'cls': 'm', 'q': True, 'txt': 'pop dword ptr [esp+0x8]'}
+    esp = {'k': 'id', 'w': 32, 'n': 'esp'}
+    plus = lambda a, c: {'k': 'op', 'w': 32, 'o': '+', 'u': 0, 'a': [a, {'k': 'int', 'w': 32, 'v': core.limbs(c, 32)}]}
+    pr = ['esp', 'mem[esp]']
+    pbase = {'kind': 'core', 'i': popm, 'x': 0, 'robs': pr, 'wobs': pr, 'ns': 3, 'sd': 5, 'eip': core.limbs(0x1000, 32)}
+    good_w = [{'a': plus(plus(esp, 4), 8), 'w': 32}]
+    good_r = [{'a': esp, 'w': 32}]
     recs = [rec(0, 'core', ['eax', 'ebx'], ['eax'] + fl),
             rec(1, 'core', ['eax'], ['eax'] + fl),
             rec(2, 'core', ['eax', 'ebx', 'ecx'], ['eax'] + [f for f in fl if f != 'cf']),
             rec(3, 'ext', ['eax'], ['eax', 'ebx', 'ecx', 'edx'], cpuid),
-            rec(4, 'ext', ['eax', 'ecx'], ['eax', 'ebx', 'ecx', 'edx', 'zf'], cpuid)]
+            rec(4, 'ext', ['eax', 'ecx'], ['eax', 'ebx', 'ecx', 'edx', 'zf'], cpuid),
+            dict(pbase, id=5, rcells=good_r, wcells=good_w),
+            dict(pbase, id=6, rcells=good_r, wcells=[{'a': plus(esp, 8), 'w': 32}]),       # address computed with the old esp
+            dict(pbase, id=7, rcells=[{'a': esp, 'w': 16}], wcells=good_w),                # only half of the stack slot reported as read
+            dict(pbase, id=8, rcells=good_r + [{'a': plus(esp, 64), 'w': 8}], wcells=good_w + [{'a': esp, 'w': 32}])]   # over-approximation
     verdicts, st = core.judge('T_C08', recs, shards=1)
     got = sorted((v['id'], f['clause'], f.get('item')) for v in verdicts for f in v['v'])
-    want = [(1, 'C08.read', 'ebx'), (2, 'C08.write', 'cf'), (3, 'C08.read', 'ecx')]
+    want = [(1, 'C08.read', 'ebx'), (2, 'C08.write', 'cf'), (3, 'C08.read', 'ecx'), (6, 'C08.write_addr', 'mem[esp]'), (7, 'C08.read_addr', 'mem[esp]')]
     ok = got == want
     chk.cov['negative_controls'].append({'name': 'add eax,ebx / cpuid: one dropped read, one dropped flag write, one dropped implicit read rejected; '
-                                                 'complete and over-approximated sets accepted', 'ok': ok, 'got': got})
+                                                 'complete and over-approximated sets accepted; pop [esp+8]: write address with the old esp and a half-reported stack slot rejected', 'ok': ok, 'got': got})
     if not ok:
         raise core.MachineryError('C08 negative control failed: got %r want %r' % (got, want))
 
